@@ -259,14 +259,15 @@ DefineLoads(c) ==
     /\ UNCHANGED <<nreb, out, lastInc>>
 CalcFext(inc) ==
     /\ phase \in {"defined", "built"}
+    /\ out = <<>>                                              \* one evaluation per behaviour of the bounded model
     /\ LoadRaises(shell, loads, inc) = "no"
     /\ obj' = RebuildObj(obj)                                  \* calc_fext begins with self._rebuild()
     /\ out' = FExtCode(obj', shell, loads, kukm, inc, Dev)
     /\ lastInc' = inc
     /\ phase' = "built"
-    /\ nreb' = IF nreb < 3 THEN nreb + 1 ELSE nreb
+    /\ nreb' = 1              \* so that calc_fext after an explicit _rebuild() and calc_fext alone reach the same state
     /\ UNCHANGED <<given, shell, loads, kukm>>
-LRebuild == Rebuild /\ nreb < 2 /\ UNCHANGED <<shell, loads, kukm, out, lastInc>>
+LRebuild == nreb = 0 /\ Rebuild /\ UNCHANGED <<shell, loads, kukm, out, lastInc>>
 
 (* ------------------------------ what TLC checks ------------------------- *)
 Values(v) == [a \in 1..Len(v) |-> v[a][1]]
@@ -283,7 +284,7 @@ FextLength == out # <<>> => Len(out) = Size(shell) - Len(obj.xs)
 ZeroObj == [obj EXCEPT !.nxx = Some(Zeros(2*obj.n2 + 1)), !.uTM = RZero, !.thetaT = PZ, !.LA = Some(RZero),
                        !.cks = [n \in 1..Len(obj.cks) |-> PZ]]
 AffineInInc ==
-    out # <<>> =>
+    (out # <<>> /\ lastInc \notin {RZero, ROne}) =>
         LET f0 == Values(FExtCode(obj, shell, loads, kukm, RZero, Dev))
             f1 == Values(FExtCode(obj, shell, loads, kukm, ROne, Dev))
             fc == Values(FExtCode(ZeroObj, shell, [loads EXCEPT !.forcesInc = <<>>, !.Pinc = RZero, !.Tinc = RZero],
@@ -295,7 +296,8 @@ Parts(ld) == << [NoLoads EXCEPT !.forces = ld.forces], [NoLoads EXCEPT !.forcesI
                 [NoLoads EXCEPT !.P = ld.P, !.Pinc = ld.Pinc], [NoLoads EXCEPT !.T = ld.T, !.Tinc = ld.Tinc] >>
 Superposition ==
     out # <<>> =>
-        LET pv == [n \in 1..4 |-> Values(FExtCode(ZeroObj, shell, Parts(loads)[n], kukm, lastInc, Dev))]
+        LET zo == TLCEval(ZeroObj)
+            pv == [n \in 1..4 |-> Values(FExtCode(zo, shell, Parts(loads)[n], kukm, lastInc, Dev))]
             rest == Values(FExtCode(obj, shell, NoLoads, kukm, lastInc, Dev))         \* axial load, prescribed amplitudes
         IN \A a \in 1..Len(out) :
               out[a][1] = PAdd(rest[a], PAdd(PAdd(pv[1][a], pv[2][a]), PAdd(pv[3][a], pv[4][a])))
